@@ -62,6 +62,7 @@ static void gen_knobs(bool quick) {
     K.short_write_pm = sim_rndn(4) == 0 ? (int)sim_rndn(300) : 0;
     K.eintr_pm = sim_rndn(4) == 0 ? (int)sim_rndn(100) : 0;
     K.zombie_delay_us = sim_rndn(2) ? (int)sim_rndn(200) : 0;
+    K.stack_mode = sim_rndn(3) == 0 ? 1 + (int)sim_rndn(256) : 0;
     K.max_steps = quick ? 3000000 : 20000000; K.max_blocks = 150000000; K.max_sim_us = 3600ull * 1000000ull;
 }
 static void plan_gen(DPlan *P, uint64_t seed, const RunOpts *o) {
